@@ -1,4 +1,5 @@
 import Oracle.C08
+import Oracle.C10
 /- Oracle: one operation per input line, one answer per output line. -/
 open Oracle
 
@@ -6,7 +7,8 @@ def dispatch (line : String) : String :=
   match words line with
   | [] => "bad-op"
   | cmd :: args =>
-    match C08.handle cmd args with
+    let hs : List (String → List String → Option String) := [C08.handle, C10.handle]
+    match hs.findSome? (fun h => h cmd args) with
     | some r => r
     | none => "bad-op"
 
